@@ -498,6 +498,10 @@ class C19(Prop):
             if mode < 0.5 or rng.random() < 0.5:
                 for _ in range(rng.randint(0, 3)):
                     ops.append([rng.choice(['ab', 'ab', 'ba']), rng.choice(CUTS)])
+            if not hostile and rng.random() < 0.35:      # a read that ends inside the delimiter
+                ops.append([rng.choice(['abm', 'bam']), rng.choice([1, 2])])
+                if rng.random() < 0.5:
+                    ops += [['ab', 0], ['bam', rng.choice([1, 2])]]
             if hostile and rng.random() < 0.4:
                 kind, d = hostile_value(rng)
                 st['hostile_kinds'][kind] = st['hostile_kinds'].get(kind, 0) + 1
@@ -526,9 +530,10 @@ class C19(Prop):
     def impl(self, c):
         TR.d, TR.l = [], []
         err = io.StringIO()
+        self._resolved = []
         with contextlib.redirect_stderr(err):
             obs = self._impl(c)
-        self._tb[canon(c)] = tables()
+        self._tb[canon(c)] = tables() + (list(self._resolved),)
         if len(self._tb) > 6000:
             self._tb.pop(next(iter(self._tb)))
         return obs
@@ -625,6 +630,15 @@ class C19(Prop):
                 wab.extend(bytes(op[1]))
             elif op[0] == 'iba':
                 wba.extend(bytes(op[1]))
+            elif op[0] in ('abm', 'bam'):
+                # one packet minus its last k bytes (k = 1, 2: the read ends inside the delimiter); the byte
+                # count is resolved here and handed to the model as an ordinary OAB n / OBA n
+                w = wab if op[0] == 'abm' else wba
+                n = max(one_packet(w) - op[1], 0) if delim in w else 0
+                self._resolved.append(n)
+                d, w[:] = bytes(w[:n]), w[n:]
+                if d:
+                    (to_callee if op[0] == 'abm' else to_caller)(d)
             elif op[0] in ('ab', 'abp'):
                 n = one_packet(wab) if op[0] == 'abp' else (op[1] or len(wab))
                 d, wab[:] = bytes(wab[:n]), wab[n:]
@@ -661,7 +675,8 @@ class C19(Prop):
         tb = self._tb.get(canon(c))
         if tb is None:
             return None
-        td, tl = tb
+        td, tl, resolved = tb
+        resolved = list(resolved)
         if k == 'serial':
             sp = c['ev']
             et = '(Build_event %s [%s] %s %s %s %s [%s] %s)' % (
@@ -682,6 +697,12 @@ class C19(Prop):
                 ops.append('OInjBA %s' % nl(op[1]))
             elif op[0] == 'ab':
                 ops.append('OAB %d%%nat' % op[1])
+            elif op[0] in ('abm', 'bam'):
+                if not resolved:
+                    return None
+                n = resolved.pop(0)
+                if n:
+                    ops.append('%s %d%%nat' % ('OAB' if op[0] == 'abm' else 'OBA', n))
             elif op[0] == 'abp':
                 ops.append('OABP')
             elif op[0] == 'bap':
@@ -813,7 +834,7 @@ class C19(Prop):
 
     def nontrivial(self, c, obs):
         if c['k'] == 'proto':
-            return len(c['events']) >= 3 or any(op[0] in ('iab', 'iba', 'abp', 'bap') or (op[0] in ('ab', 'ba') and op[1]) for op in c['ops'])
+            return len(c['events']) >= 3 or any(op[0] in ('iab', 'iba', 'abp', 'bap', 'abm', 'bam') or (op[0] in ('ab', 'ba') and op[1]) for op in c['ops'])
         if c['k'] in ('load', 'loadv'):
             return isinstance(obs, dict) and obs.get('r') is not None
         return True
